@@ -131,6 +131,17 @@ pub fn mon_taxonomy(case: &Case, rec: &Record) -> Option<Violation> {
     if !e.is_signature_error {
         return Some(violation("taxonomy", "not-signature-error", format!("error is not a SignatureError: {}", e.debug), case, None));
     }
+    // 500 is reserved for failures of the key provider: an internal-failure class without the provider having failed in
+    // this very execution (its readiness or its answer returned an error) is a misreported client-side defect
+    if matches!(e.kind, Kind::InternalServiceError | Kind::IO) && !rec.events.iter().any(|ev| matches!(ev, Ev::PollReady(2) | Ev::FutPoll(2))) {
+        return Some(violation(
+            "taxonomy",
+            "internal-failure-without-provider-failure",
+            format!("{} / status {} reported although the key provider did not fail (provider events: {:?}): {}", e.kind.name(), e.status, rec.events, crate::run::truncate(&e.msg, 200)),
+            case,
+            None,
+        ));
+    }
     let (code, status) = e.kind.taxonomy();
     if e.code != code || e.status != status || (200..300).contains(&e.status) {
         return Some(violation(
